@@ -19,8 +19,11 @@
 //!     Ir | Io      the incoming stream yields an accept error (recoverable kind / other kind)
 //!     D<c>         the client drops connection c (and abandons its calls)
 //!     X<k>         the client abandons call k
-//!     T            virtual time passes max_connection_age
-//!   D, X and T must follow and be quiescent steps.
+//!     W<secs>      virtual time passes: the script sleeps <secs> seconds of (paused) tokio time.
+//!                  Usable anywhere, with or without max_connection_age configured: whatever in
+//!                  the server depends on the clock gets its chance to fire
+//!     T            = W3600 (virtual time passes max_connection_age)
+//!   D, X, W and T must follow and be quiescent steps.
 //!   After the script: all handlers free-run (drain), quiescent point, then every client is dropped.
 //!
 //! Time = number of quiescent points passed (a quiescent point = the paused-clock runtime went idle:
@@ -61,7 +64,7 @@ enum Op {
     AcceptErr(bool),
     DropConn(usize),
     Cancel(usize),
-    Age,
+    Wait(u64),
 }
 
 #[derive(Clone, Debug)]
@@ -150,10 +153,17 @@ fn parse(case: &str) -> Option<Script> {
                 }
                 Op::Cancel(k)
             }
-            ("T", []) => Op::Age,
+            ("T", []) => Op::Wait(AGE.as_secs()),
+            ("W", [d]) => {
+                let d: u64 = d.parse().ok()?;
+                if d > 100_000 {
+                    return None;
+                }
+                Op::Wait(d)
+            }
             _ => return None,
         };
-        if matches!(op, Op::DropConn(_) | Op::Cancel(_) | Op::Age) {
+        if matches!(op, Op::DropConn(_) | Op::Cancel(_) | Op::Wait(_)) {
             // these are only meaningful from a quiescent state
             if yields.is_some() || steps.last().map(|p: &Step| p.yields.is_some()).unwrap_or(false) {
                 return None;
@@ -687,8 +697,8 @@ async fn run(sc: Script) -> String {
             Op::Cancel(k) => {
                 call_tasks[k].1.abort();
             }
-            Op::Age => {
-                tokio::time::sleep(AGE).await;
+            Op::Wait(secs) => {
+                tokio::time::sleep(Duration::from_secs(secs)).await;
             }
         }
         after_step(step.yields).await;
@@ -762,7 +772,7 @@ pub fn execute(case: &str) -> String {
     };
     let rt = paused_rt();
     rt.block_on(async move {
-        match tokio::time::timeout(Duration::from_secs(1_000_000), run(sc)).await {
+        match tokio::time::timeout(Duration::from_secs(1_000_000_000), run(sc)).await {
             Ok(s) => s,
             Err(_) => "hang".into(),
         }
@@ -883,7 +893,7 @@ fn late_probe(nconn: usize) -> Vec<String> {
 
 /// mark some steps as non-quiescent (`~k`), never ones that need a quiescent state
 fn add_races(ops: &[String], rng: &mut Rng, density: u64) -> Vec<String> {
-    let needs_quiet = |t: &String| t.starts_with('D') || t.starts_with('X') || t == "T";
+    let needs_quiet = |t: &String| t.starts_with('D') || t.starts_with('X') || t.starts_with('W') || t == "T";
     let mut out = Vec::new();
     for (i, t) in ops.iter().enumerate() {
         let next_quiet = ops.get(i + 1).map(needs_quiet).unwrap_or(false);
@@ -921,6 +931,14 @@ fn corpus() -> Vec<String> {
         "sc:corpus g b1024 p10 a0 C U0:0",
         "sc:corpus g b1024 p10 a0 C U0:0 D0 G",
         "sc:corpus g b1024 p10 a1 C U0:0 T C U0:0 U1:0 A0",
+        // time passes (task: anything clock-dependent after the signal must get its chance)
+        "sc:corpus g b1024 p10 a0 C U0:0 G W61 A0",
+        "sc:corpus g b1024 p10 a0 C S0:2:0 A0 G T A0 A0 A0",
+        "sc:corpus g b1024 p10 a1 C U0:0 G W61 A0",
+        "sc:corpus g b1024 p10 a1 C W3599 U0:0 W1 C U0:0 U1:0 A0",
+        "sc:corpus g b1024 p10 a1 C W3599 C W1 U0:0 U1:0 A0 W3599 U1:0",
+        "sc:corpus g b1024 p10 a0 W7200 C U0:0 W61 G W61 A0 W61",
+        "sc:corpus n b1024 p10 a0 C U0:0 W7200 A0 E W61",
         "sc:corpus g b1024 p10 a0 Io C Ir U0:0 G",
         "sc:corpus g b1024 p10 a0 C S0:2:0 A0 X0 G",
         "sc:corpus g b32 p70000 a0 C S0:2:0 U0:0 A0 A0 G A1 A0 A0",
@@ -939,11 +957,31 @@ fn corpus() -> Vec<String> {
     out
 }
 
-/// the signal at every phase boundary of every call: all insertion points of `G` (and `E`) into a
-/// scenario whose handler phases are spelled out one per step
-fn placements(out: &mut Vec<String>, rng: &mut Rng, g: &Gen, mode: &str, trig: &str, probe: bool, races: u64) {
+/// amounts of virtual time for the `W` step: below / above any plausible drain or idle timeout,
+/// and around max_connection_age (3600 s)
+const WAITS: [u64; 10] = [1, 29, 31, 61, 61, 600, 3599, 3600, 3601, 7200];
+
+fn wait_tok(rng: &mut Rng) -> String {
+    format!("W{}", rng.pick(&WAITS))
+}
+
+/// "time passes" at up to `max` random places of a scenario (anywhere: before the first
+/// connection, between the phases of calls in flight, after the signal, at the very end)
+fn sprinkle_time(ops: &[String], rng: &mut Rng, max: u64) -> Vec<String> {
+    let mut v = ops.to_vec();
+    for _ in 0..rng.range(1, max) {
+        let at = rng.range(0, v.len() as u64) as usize;
+        let t = wait_tok(rng);
+        v = insert_at(&v, at, &[t]);
+    }
+    v
+}
+
+/// the signal at every phase boundary of every call: all insertion points of `G` (and `E`, and a
+/// time step) into a scenario whose handler phases are spelled out one per step
+fn placements(out: &mut Vec<String>, rng: &mut Rng, g: &Gen, mode: &str, trig: &str, age: bool, probe: bool, races: u64) {
     let (buf, payload) = pick_sizes(rng, g.calls.len());
-    let age = trig == "T";
+    let timed = !trig.starts_with('W') && trig != "T" && rng.chance(1, 2);
     for at in 0..=g.ops.len() {
         let mut ops = insert_at(&g.ops, at, &[trig.to_string()]);
         if probe {
@@ -954,10 +992,14 @@ fn placements(out: &mut Vec<String>, rng: &mut Rng, g: &Gen, mode: &str, trig: &
             let pos = rng.range(lo as u64, ops.len() as u64) as usize;
             ops = insert_at(&ops, pos, &late_probe(g.nconn));
         }
+        if timed {
+            ops = sprinkle_time(&ops, rng, 2);
+        }
         if races > 0 {
             ops = add_races(&ops, rng, races);
         }
-        let class = format!("place{}{}{}", trig, if mode == "n" { "-nosignal" } else { "" }, if races > 0 { "-race" } else { "" });
+        let tname = if trig.starts_with('W') { "W" } else { trig };
+        let class = format!("place{}{}{}{}", tname, if mode == "n" { "-nosignal" } else { "" }, if races > 0 { "-race" } else { "" }, if timed { "-timed" } else { "" });
         out.push(format!("{} {}", header(&class, mode, buf, payload, age), ops.join(" ")));
     }
 }
@@ -966,23 +1008,34 @@ fn structured(out: &mut Vec<String>, rng: &mut Rng, n: usize, max_conn: usize, m
     for i in 0..n {
         let finish = rng.chance(3, 4);
         let g = base_scenario(rng, max_conn, max_calls, finish);
-        match i % 10 {
+        match i % 12 {
             // max_connection_age elapsing at every phase boundary (then the signal at the end)
-            8 => placements(out, rng, &g, "g", "T", false, 0),
+            8 => placements(out, rng, &g, "g", "T", true, false, 0),
             9 => {
                 let mut g2 = g.clone();
                 g2.ops.push("G".into());
-                placements(out, rng, &g2, "g", "T", false, 0)
+                placements(out, rng, &g2, "g", "T", true, false, 0)
             }
-            0 | 1 => placements(out, rng, &g, "g", "G", true, 0),
-            2 => placements(out, rng, &g, "g", "G", false, 0),
+            // time passing at every phase boundary of a scenario that has the signal (or the end
+            // of incoming) somewhere in it; max_connection_age configured or not
+            10 | 11 => {
+                let mut g2 = g.clone();
+                let at = rng.range(0, g2.ops.len() as u64) as usize;
+                let trig = if rng.chance(1, 5) { "E" } else { "G" };
+                g2.ops = insert_at(&g2.ops, at, &[trig.to_string()]);
+                let w = if rng.chance(1, 3) { "T".to_string() } else { wait_tok(rng) };
+                let age = rng.chance(1, 3);
+                placements(out, rng, &g2, "g", &w, age, false, 0)
+            }
+            0 | 1 => placements(out, rng, &g, "g", "G", false, true, 0),
+            2 => placements(out, rng, &g, "g", "G", false, false, 0),
             3 => {
                 let probe = rng.chance(1, 2);
-                placements(out, rng, &g, "g", "E", probe, 0)
+                placements(out, rng, &g, "g", "E", false, probe, 0)
             }
-            4 => placements(out, rng, &g, "n", "E", false, 0),
-            5 | 6 => placements(out, rng, &g, "g", "G", true, 3),
-            _ => placements(out, rng, &g, "g", "E", true, 2),
+            4 => placements(out, rng, &g, "n", "E", false, false, 0),
+            5 | 6 => placements(out, rng, &g, "g", "G", false, true, 3),
+            _ => placements(out, rng, &g, "g", "E", false, true, 2),
         }
     }
 }
@@ -1006,7 +1059,7 @@ fn disturbed(out: &mut Vec<String>, rng: &mut Rng, n: usize, max_conn: usize, ma
                 2 => Some("E".into()),
                 3 if nc > 0 => Some(format!("D{}", rng.below(nc as u64))),
                 4 if nk > 0 => Some(format!("X{}", rng.below(nk as u64))),
-                5 if age => Some("T".into()),
+                5 => Some(if rng.chance(1, 3) { "T".into() } else { wait_tok(rng) }),
                 6 => Some(if rng.chance(1, 2) { "Ir".into() } else { "Io".into() }),
                 7 if nk > 0 => Some(format!("A{}", rng.below(nk as u64))),
                 8 => Some("G".into()),
@@ -1034,7 +1087,7 @@ fn disturbed(out: &mut Vec<String>, rng: &mut Rng, n: usize, max_conn: usize, ma
 /// thorough tier: every scenario up to a length bound over a small alphabet (one connection
 /// pre-offered or not, two calls at most)
 fn exhaustive(out: &mut Vec<String>, max_len: usize) {
-    let alphabet = ["C", "U", "S", "A0", "A1", "G", "E", "D0", "X0"];
+    let alphabet = ["C", "U", "S", "A0", "A1", "G", "E", "D0", "X0", "W61"];
     fn rec(out: &mut Vec<String>, alphabet: &[&str], cur: &mut Vec<String>, nconn: usize, ncall: usize, left: usize) {
         if !cur.is_empty() {
             out.push(format!("sc:exhaustive g b1024 p10 a0 {}", cur.join(" ")));
@@ -1049,7 +1102,7 @@ fn exhaustive(out: &mut Vec<String>, max_len: usize) {
                 "S" if nconn > 0 && ncall < 2 => (format!("S{}:1:5", nconn - 1), nconn, ncall + 1),
                 "A0" if ncall > 0 => ("A0".to_string(), nconn, ncall),
                 "A1" if ncall > 1 => ("A1".to_string(), nconn, ncall),
-                "G" | "E" => (a.to_string(), nconn, ncall),
+                "G" | "E" | "W61" => (a.to_string(), nconn, ncall),
                 "D0" if nconn > 0 => ("D0".to_string(), nconn, ncall),
                 "X0" if ncall > 0 => ("X0".to_string(), nconn, ncall),
                 _ => continue,
@@ -1068,7 +1121,7 @@ fn racy_variants(out: &mut Vec<String>, rng: &mut Rng, cases: &[String]) {
     for c in cases {
         let toks: Vec<&str> = c.split(' ').collect();
         let ops: Vec<String> = toks[5..].iter().map(|t| t.to_string()).collect();
-        if ops.iter().any(|t| t.starts_with('D') || t.starts_with('X')) {
+        if ops.iter().any(|t| t.starts_with('D') || t.starts_with('X') || t.starts_with('W') || t == "T") {
             continue;
         }
         let all0: Vec<String> = ops.iter().map(|t| format!("{}~0", t)).collect();
